@@ -104,6 +104,11 @@ theorem inv_step (s : St) (op : Op) (h : Inv s) : Inv (step s op) := by
     split
     · exact inv_failAll (s := { s with closed := true }) h.once h.len
     · exact h
+  | connClosed e =>
+    simp only [step]
+    split
+    · exact inv_failAll (s := { s with closed := true }) h.once h.len
+    · exact h
   | reset =>
     simp only [step]
     split
@@ -124,12 +129,13 @@ theorem inv_run (ops : List Op) : ∀ (s : St), Inv s → Inv (run s ops) := by
 
 /-! ### matching: the callback of request k receives the response that answers request k
 
-Environment hypothesis (`EnvOK`): a response is only delivered by the parser of the *current*
-connection, and only for a request that was written to it (C10 (a): exactly one response per request,
-in order; an older connection's parser is silent once the ClientConn has moved on). -/
+Environment hypothesis (`EnvOK`): on the connection the ClientConn currently uses, the parser delivers a
+response only for a request that was written to it — C10 (a) for the server at the other end: exactly
+one response per request, in order.  Nothing is assumed about older connections: their late responses
+and close notifications are ignored by the (repaired) code. -/
 
 def okOp (s : St) : Op → Prop
-  | .onResponse e _ => s.conn = none ∨ (s.conn = some e ∧ s.rcvd.getD e 0 < (s.sent.getD e []).length)
+  | .onResponse e _ => s.conn = some e → s.rcvd.getD e 0 < (s.sent.getD e []).length
   | _ => True
 
 def EnvOK : St → List Op → Prop
@@ -145,6 +151,11 @@ structure Match (s : St) : Prop where
 theorem getD_modify_same {β} (l : List β) (e : Nat) (f : β → β) (d : β) (he : e < l.length) :
     (l.modify e f).getD e d = f (l.getD e d) := by
   simp [List.getD_eq_getElem?_getD, List.getElem?_eq_getElem he]
+
+theorem getD_modify_other {β} (l : List β) (e e' : Nat) (f : β → β) (d : β) (he : e ≠ e') :
+    (l.modify e f).getD e' d = l.getD e' d := by
+  simp only [List.getD_eq_getElem?_getD, List.getElem?_modify, he, if_false]
+  cases l[e']? <;> rfl
 
 theorem match_failAll {s : St} (hl : ∀ c ∈ s.calls, ∀ lbl, c.2 = Out.resp lbl → lbl = some c.1) :
     Match (failAll s) := by
@@ -200,16 +211,14 @@ theorem match_step (s : St) (op : Op) (hi : Inv s) (h : Match s) (hok : okOp s o
   | onResponse e expired =>
     simp only [step]
     split
-    · split
-      · rename_i hcl h0 rest hh
-        -- a callback is pending, so a connection exists; by EnvOK it is `e` and the response is solicited
-        have hconn : s.conn = some e ∧ s.rcvd.getD e 0 < (s.sent.getD e []).length := by
-          rcases hok with hn | hx
-          · have := hi.none_empty hn; rw [hh] at this; cases this
-          · exact hx
-        obtain ⟨hce, hlt⟩ := hconn
-        obtain ⟨_, hdrop⟩ := h.cur e hce
-        have helt := hi.conn_lt e hce
+    · rename_i hguard
+      simp only [Bool.and_eq_true, Bool.not_eq_true', beq_iff_eq] at hguard
+      obtain ⟨hcl, hce⟩ := hguard
+      have hlt := hok hce
+      obtain ⟨_, hdrop⟩ := h.cur e hce
+      have helt := hi.conn_lt e hce
+      split
+      · rename_i h0 rest hh
         rw [List.drop_eq_getElem_cons hlt, hh] at hdrop
         injection hdrop with hhead htail
         have hlabel : label s e = some h0 := by
@@ -232,25 +241,33 @@ theorem match_step (s : St) (op : Op) (hi : Inv s) (h : Match s) (hok : okOp s o
             rw [getD_modify_same _ _ _ _ (by rw [← hi.len]; exact helt)]
             exact ⟨by omega, htail⟩
           · exact hlabels
-      · rename_i hcl hemp
-        constructor
-        · intro e' hh2
-          simp only [deliver] at hh2
-          obtain ⟨hle, hdrop⟩ := h.cur e' hh2
-          rcases hok with hn | ⟨hce, hlt⟩
-          · rw [hn] at hh2; cases hh2
-          · rw [hce] at hh2; cases hh2
-            -- solicited response but nothing pending: impossible (pending = drop … ≠ [])
-            rw [hemp, List.drop_eq_getElem_cons hlt] at hdrop; cases hdrop
-        · exact h.labels
-    · rename_i hcl
-      have hc' : s.closed = true := by simpa using hcl
+      · -- a solicited response with nothing pending: impossible (pending = drop … ≠ [])
+        rename_i hemp
+        rw [hemp, List.drop_eq_getElem_cons hlt] at hdrop; cases hdrop
+    · -- closed, or a response of a connection that is no longer current: ignored
+      rename_i hguard
       constructor
       · intro e' hh2
         simp only [deliver] at hh2
-        rw [hi.closed_conn hc'] at hh2; cases hh2
+        obtain ⟨hle, hdrop⟩ := h.cur e' hh2
+        have hne : e ≠ e' := by
+          intro heq; subst heq
+          apply hguard
+          simp only [Bool.and_eq_true, Bool.not_eq_true', beq_iff_eq]
+          refine ⟨?_, hh2⟩
+          cases hc : s.closed with
+          | false => rfl
+          | true => have := hi.closed_conn hc; rw [hh2] at this; cases this
+        simp only [deliver]
+        rw [getD_modify_other _ _ _ _ _ hne]
+        exact ⟨hle, hdrop⟩
       · exact h.labels
   | closeAll =>
+    simp only [step]
+    split
+    · exact match_failAll (s := { s with closed := true }) h.labels
+    · exact h
+  | connClosed e =>
     simp only [step]
     split
     · exact match_failAll (s := { s with closed := true }) h.labels
